@@ -48,7 +48,7 @@ func (e *Engine) AnalyzeEntry(fn *ssa.Function) {
 	}
 }
 
-func (e *Engine) Obligations() []*Oblig          { return e.it.sortedObligs() }
+func (e *Engine) Obligations() []*Oblig         { return e.it.sortedObligs() }
 func (e *Engine) Funcs() map[*ssa.Function]bool { return e.it.funcs }
 func (e *Engine) Stats() (entail, feas, steps int) {
 	return e.it.nEntail, e.it.nFeas, e.it.steps
